@@ -728,7 +728,7 @@ def run(ctx):
         for spec in structured_cases():
             account(spec, run_history(env, spec), "structured")
 
-        n_hist = ctx.budget(230, 3600)
+        n_hist = ctx.budget(320, 3600)
         for h in range(n_hist):
             n = 2 if rng.random() < 0.7 else 3
             avoid = {f for f in ("F5", "F6", "F15", "F16") if rng.random() < 0.75}
